@@ -12,7 +12,7 @@ import common
 import grammar as G
 import lit
 
-CLASSES_C04 = {1: 'double_close'}
+CLASSES_C04 = {}   # no known defect class is left (pct_at_end, nodemult_sym, double_close are repaired)
 
 REPO_TEST_STRINGS = [
     "{[#PMA][#PEO][#PMA]}", "{[#PMA]=[#PEO]$[#PMA]}", "{[#PMA;q=1]=[#PEO]$[#PMA]}", "{[#PMA]([#PEO][#PEO])[#PMA]}",
